@@ -70,12 +70,14 @@ class Runner:
             result = result + ["|"] + result2
         return log, result
 
-    def call1(self, mod, fn, script):
-        rt2.reset(script)
+    def call1(self, mod, fn, script, made=None):
+        """made: a generator object created earlier (after rt2.reset) - it is only driven here"""
+        if made is None:
+            rt2.reset(script)
         if hasattr(mod, "GV"):
             del mod.GV
         try:
-            r = fn(90)
+            r = fn(90) if made is None else made
             if self.prog.get("gen"):
                 r = self.drive(r)
             if rt2.PENDING[0] is not None:
@@ -255,6 +257,9 @@ def variants(prog, opts, rng):
     vs = opts["variants"]
     if prog.get("precall"):
         vs = [v for v in vs if v != "tooled"]        # tooled(fn) makes a NEW function (fresh defaults): not comparable
+    if prog.get("gen") and ("singles" in vs or "all" in vs) and names:
+        # the generator object is made while a probe is active and only run after the probe has ended
+        out.append({"mode": "lategen", "sels": [], "late": names[-1]})
     if "tooled" in vs:
         out.append({"mode": "tooled", "sels": []})
     if "inplace" in vs:
@@ -403,6 +408,12 @@ def _run_variant(runner, var, script, mod, fn, rec):
             p_.subscribe(lambda d_: recs.append(1))
             with p_:
                 rec["log"], rec["result"] = runner.call(mod, fn, script)
+        elif var["mode"] == "lategen":
+            rt2.reset(script)
+            with probing(f"{runner.name} > {var['late']}", env={runner.name: fn}) as p_:
+                p_.subscribe(lambda d_: None)
+                made = fn(90)
+            rec["log"], rec["result"] = runner.call1(mod, fn, script, made=made)
         elif var["mode"] == "meta":
             env = {runner.name: fn}
             merged = []
